@@ -38,11 +38,18 @@ pub fn sample_covariance(x: &[f64], y: &[f64]) -> f64 {
 pub fn sample_covariance_onepass(x: &[f64], y: &[f64]) -> f64 {
     assert_eq!(x.len(), y.len());
     let n = x.len();
-    (0..n)
-        .into_iter()
-        .map(|i| (x[i] - x[0]) * (y[i] - y[0]))
-        .sum::<f64>()
-        / (n - 1) as f64
+    let mut sum_dx = 0.;
+    let mut sum_dy = 0.;
+    let mut sum_dxdy = 0.;
+    for i in 0..n {
+        let dx = x[i] - x[0];
+        let dy = y[i] - y[0];
+        sum_dx += dx;
+        sum_dy += dy;
+        sum_dxdy += dx * dy;
+    }
+    // sum (x - xbar)(y - ybar) = sum dx dy - (sum dx)(sum dy) / n for any shift
+    (sum_dxdy - sum_dx * sum_dy / n as f64) / (n - 1) as f64
 }
 
 /// Calculates the covariance between two vectors x and y. This is a stable one-pass online algorithm.
